@@ -35,6 +35,27 @@ type ufP struct {
 }
 type ufZ struct{ N int }
 
+// ufZP: IsZero with a POINTER receiver, no custom folder (folds as a plain struct)
+type ufZP struct{ X int }
+
+func (z *ufZP) IsZero() bool { return z.X == 0 }
+
+// ufBox / ufMap: pointer-shaped value types with a registered folder
+type ufBox struct{ P *int }
+type ufMap map[string]int
+
+// ufNode inlines a pointer to itself
+type ufNode struct {
+	V    int
+	Next *ufNode `struct:",inline"`
+}
+
+// ufMid: an inlined interface{} inside a value held by an inlined interface{}
+type ufMid struct {
+	B int
+	Y interface{} `struct:",inline"`
+}
+
 // ufR has a REGISTERED folder that emits an object (so that it can also be inlined)
 type ufR struct {
 	K string
@@ -71,6 +92,8 @@ func ufTString(t *ufT) string { return "T:" + strconv.Itoa(t.A) + ":" + t.B }
 
 var userFoldOpts = gotype.Folders(
 	func(t *ufT, v structform.ExtVisitor) error { return v.OnString(ufTString(t)) },
+	func(b *ufBox, v structform.ExtVisitor) error { return v.OnString("BOX:" + strconv.Itoa(*b.P)) },
+	func(m *ufMap, v structform.ExtVisitor) error { return v.OnString("MAP:" + strconv.Itoa(len(*m))) },
 	func(r *ufR, v structform.ExtVisitor) error {
 		if err := v.OnObjectStart(1, structform.AnyType); err != nil {
 			return err
@@ -277,11 +300,48 @@ func userPlacement(idx int, r *rng) (interface{}, interface{}) {
 	case 31:
 		// Folder behind an interface in a slice and a map
 		return []interface{}{o, &p, map[string]interface{}{"m": o}}, []interface{}{ox, px, xo{{"m", ox}}}
+	case 32:
+		// omitempty on a type whose IsZero has a pointer receiver (no custom folder)
+		type t struct {
+			A int
+			B ufZP `struct:",omitempty"`
+		}
+		z := ufZP{X: r.n(3)}
+		if z.X == 0 {
+			return t{n, z}, xo{{"a", n}}
+		}
+		return t{n, z}, xo{{"a", n}, {"b", xo{{"x", z.X}}}}
+	case 33:
+		// nil pointers to a value-receiver Folder fold as null
+		return struct {
+			A int
+			B *ufO
+			C []*ufO
+		}{n, nil, []*ufO{nil, &o}}, xo{{"a", n}, {"b", nil}, {"c", []interface{}{nil, ox}}}
+	case 34:
+		return (*ufO)(nil), nil
+	case 35:
+		// registered folders for pointer-shaped value types, not addressable
+		q := n
+		return []interface{}{ufBox{P: &q}, ufMap{"a": 1, "b": 2}, struct{ X ufBox }{ufBox{P: &q}}},
+			[]interface{}{"BOX:" + strconv.Itoa(n), "MAP:2", xo{{"x", "BOX:" + strconv.Itoa(n)}}}
+	case 36:
+		// a type inlining a pointer to itself
+		if r.bool() {
+			return ufNode{V: n}, xo{{"v", n}}
+		}
+		return ufNode{V: n, Next: &ufNode{V: n + 1, Next: &ufNode{V: n + 2}}}, xo{{"v", n}, {"v", n + 1}, {"v", n + 2}}
+	case 37:
+		// inlined interface{} inside a value held by an inlined interface{}
+		return struct {
+			A int
+			X interface{} `struct:",inline"`
+		}{n, ufMid{B: n + 1, Y: map[string]int{k: 3}}}, xo{{"a", n}, {"b", n + 1}, {k, 3}}
 	}
 	panic("userPlacement")
 }
 
-const nUserPlacements = 32
+const nUserPlacements = 38
 
 // placement 20 needs the value it generated: build it here with one rng so that value and expectation agree
 func userPlacementFixed(idx int, seed uint64) (interface{}, interface{}) {
@@ -304,6 +364,7 @@ func userPlacementFixed(idx int, seed uint64) (interface{}, interface{}) {
 func userfoldRun(mode string, items [][2]uint64) string {
 	var got, want []event
 	var err error
+	wantErr := false
 	o := guard(guardTime, func() {
 		xrec := newXRecorder(-1)
 		var vis structform.Visitor = xrec
@@ -316,6 +377,16 @@ func userfoldRun(mode string, items [][2]uint64) string {
 			return
 		}
 		for i, item := range items {
+			if item[0] == nUserPlacements {
+				// an invalid option: Fold must report it, not succeed without folding anything
+				xrec.evs = nil
+				err = gotype.Fold(int(item[1]), vis, gotype.Folders(42))
+				if i == len(items)-1 {
+					got = xrec.evs
+					wantErr = true
+				}
+				continue
+			}
 			v, x := userPlacementFixed(int(item[0]), item[1])
 			xrec.evs = nil
 			err = it.Fold(v)
@@ -327,6 +398,9 @@ func userfoldRun(mode string, items [][2]uint64) string {
 			}
 		}
 	})
+	if wantErr {
+		return fmt.Sprintf("EV %s R %s ## WANT ERR", eventsTok(got), verdictTok(o, err))
+	}
 	return fmt.Sprintf("EV %s R %s ## WANT %s", eventsTok(got), verdictTok(o, err), strings.ReplaceAll(eventsTok(want), " ", "_"))
 }
 
@@ -335,7 +409,7 @@ func userfoldCase(r *rng) string {
 	items := make([][2]uint64, n)
 	parts := make([]string, n)
 	for i := range items {
-		items[i] = [2]uint64{uint64(r.n(nUserPlacements)), r.u64() % 1000003}
+		items[i] = [2]uint64{uint64(r.n(nUserPlacements + 1)), r.u64() % 1000003}
 		parts[i] = fmt.Sprintf("%d:%d", items[i][0], items[i][1])
 	}
 	mode := []string{"x", "p"}[r.n(2)]
